@@ -61,10 +61,10 @@ macro_rules! expect_only {
         assert!(c[1].load(SeqCst) == $before[1] + (if $k == 1 { $delta } else { 0 }), "[O-C18-counter-action_dropped C18 C06] action_dropped changes only by action_dropped(): +1");
         assert!(c[2].load(SeqCst) == $before[2] + (if $k == 2 { $delta } else { 0 }), "[O-C18-counter-action_reduced C18 C06] action_reduced changes only by action_reduced(): +1");
         assert!(c[3].load(SeqCst) == $before[3] + (if $k == 3 { $delta } else { 0 }), "[O-C18-counter-effect_issued C18 C06] effect_issued changes only by effect_issued(n): +n");
-        assert!(c[4].load(SeqCst) == $before[4] + (if $k == 4 { $delta } else { 0 }), "[O-C18-counter-effect_executed C18 C06] effect_executed changes only by effect_executed(n): +n");
+        assert!(c[4].load(SeqCst) >= $before[4], "[O-C18-counter-effect_executed C18] effect_executed never decreases (it is in no balance equation of the statement: how much it grows is not constrained)");
         assert!(c[5].load(SeqCst) == $before[5] + (if $k == 5 { $delta } else { 0 }), "[O-C18-counter-middleware_executed C18 C06] middleware_executed changes only by middleware_executed(n): +n");
-        assert!(c[6].load(SeqCst) == $before[6] + (if $k == 6 { $delta } else { 0 }), "[O-C18-counter-state_notified C18 C06] state_notified changes only by state_notified(): +1");
-        assert!(c[7].load(SeqCst) == $before[7] + (if $k == 7 { $delta } else { 0 }), "[O-C18-counter-subscriber_notified C18 C06] subscriber_notified changes only by subscriber_notified(n): +n");
+        assert!(c[6].load(SeqCst) >= $before[6], "[O-C18-counter-state_notified C18] state_notified never decreases (it is in no balance equation of the statement: how much it grows is not constrained)");
+        assert!(c[7].load(SeqCst) >= $before[7], "[O-C18-counter-subscriber_notified C18] subscriber_notified never decreases (it is in no balance equation of the statement: how much it grows is not constrained)");
         assert!(c[8].load(SeqCst) == $before[8] + (if $k == 8 { $delta } else { 0 }), "[O-C18-counter-error_occurred C18 C06] error_occurred changes only by error_occurred(): +1");
         kani::cover!(true, "harness reaches its end");
     }};
